@@ -61,6 +61,12 @@ func (g *gen) needDerivedVar(name t.ID) bool {
 					if recv.MType().Eq(typeExprPixelSwizzler) && argsContainsArgsDotFoo(args, name) {
 						return errNeedDerivedVar
 					}
+				case t.IDLimitedCopyU32FromReader:
+					// The generated call reads (and advances) the reader
+					// argument's derived pointers.
+					if recv.MType().IsIOTokenType() && argsContainsArgsDotFoo(args, name) {
+						return errNeedDerivedVar
+					}
 				}
 
 			case a.KIOManip:
